@@ -7,10 +7,11 @@ LEVEL = 'proof'
 RULES = {
     'C11.R1': 'status->verdict tables: Infeasible verdicts / false edges only in the PolytopeStatus::Infeasible arm (or cached Infeasible); '
               'PolytopeStatus::Infeasible only from the back-end\'s Err(Infeasible); Polytope::is_feasible (panics on Error) has no caller in pruning code',
-    'C11.R2': 'fault arms (Unbounded, Error, Optimal-but-not-contained) of both LP consumers contain no panic site (panic!/assert!/unwrap/expect/indexing)',
+    'C11.R2': 'fault arms (Unbounded, Error, Optimal-but-not-contained) of both LP consumers contain no panic site (panic!/assert!/unwrap/expect/indexing); '
+              'neither does any arm that matches on a cached node state which only a fault arm produces (Feasible after an Unbounded answer)',
     'C11.R3': 'less pruning only: no removal and no cached witness can be produced from a fault arm (removal-site and witness-guard rules)',
 }
-FLOORS = {'C11.R1': 6, 'C11.R2': 5, 'C11.R3': 13}
+FLOORS = {'C11.R1': 9, 'C11.R2': 6, 'C11.R3': 13}
 EXPLANATION = ('The fault arms are unreachable with minilp, which is why no test executes them; they are examined directly: '
                'for every tree and every subset/position of faulty LP answers no fault arm can produce a removal, an Infeasible verdict, '
                'an unchecked witness or a panic.')
@@ -77,6 +78,71 @@ def r2(ctx):
                 ctx.ok('C11.R2', site, 'no panic site in %d block(s) of this arm' % n, b.span)
 
 
+def panic_sites(b, R, blocks):
+    """panic sites (panic!/assert!/unreachable!/unwrap/expect/diverging call/indexing) in the given blocks: [(what, span)]"""
+    out = []
+    for i in blocks:
+        t = b.blocks[i]['term']
+        if t['k'] == 'call':
+            c = Callee(t['func'])
+            if c.name in PANIC_NAMES or (c.def_path or '').startswith('core::panicking') or (c.def_path or '').startswith('std::rt::begin_panic'):
+                out.append(('panic call %s' % c.short, t['span']))
+            elif c.name in UNWRAP_NAMES and not t['exp']:
+                out.append(('%s on %s' % (c.name, fmt(R.call_args(i)[0])[:80]), t['span']))
+            elif t['target'] is None:
+                out.append(('diverging call %s' % c.short, t['span']))
+        elif t['k'] == 'assert' and 'BoundsCheck' in t.get('msg', ''):
+            out.append(('indexing with bounds check', t['span']))
+    return out
+
+
+def r2_fault_only_states(ctx):
+    """A node state that only a fault arm produces (today: Feasible, cached after an Unbounded answer) is later read by the arms that match on
+    cached states (of the node itself or of its parent).  An arm that is entered only with such states is reachable only under a solver
+    fault (no fault-free run executes it) and must not contain a panic site.  Arms that also admit ordinary states are ordinary code."""
+    F = ctx.facts
+    adt = F.adt('NodeState')
+    if adt is None:
+        ctx.lost('C11.R2', 'NodeState')
+        return
+    variants = {v['name'] for v in adt['variants']}
+    fault_only = set()
+    built = {}
+    for v in variants:
+        for b, i, j, st in prune.constructions(F, 'NodeState', v):
+            fb = fault_blocks(b, Resolver(b)) if b.qname in ('AffTree::phase_two', 'AffTree::is_edge_feasible') else {}
+            built.setdefault(v, []).append(i in fb)
+    for v, flags in built.items():
+        if flags and all(flags):
+            fault_only.add(v)
+    if not fault_only:
+        ctx.ok('C11.R2', 'NodeState#fault-only-states', 'no node state is produced only by fault arms', '')
+        return
+    n = 0
+    for b in F.units():
+        if b.kind == 'Closure' or b.impl_trait_base in ('Clone', 'Debug', 'PartialEq', 'Display'):
+            continue
+        if not (b.qname.startswith('AffTree::') or b.qname.startswith('NodeState::') or b.qname.startswith('AffContent::')):
+            continue
+        R = Resolver(b)
+        arms = {}
+        for i, bl in b.live_blocks():
+            for l in literals(b, R, i):
+                if l[0] == 'is' and l[2] and set(l[2]) <= fault_only:
+                    arms.setdefault(tuple(sorted(l[2])), set()).add(i)
+        for vs, blocks in sorted(arms.items()):
+            n += 1
+            site = '%s#state-arm:%s' % (b.qname, '|'.join(vs))
+            ps = panic_sites(b, R, sorted(blocks))
+            if ps:
+                for what, span in ps:
+                    ctx.bad('C11.R2', site, 'panic site in an arm entered with a state that only a solver fault produces (%s): %s' % ('/'.join(sorted(fault_only)), what), span)
+            else:
+                ctx.ok('C11.R2', site, 'no panic site in %d block(s) admitting %s' % (len(blocks), '/'.join(sorted(fault_only))), b.span)
+    if n == 0:
+        ctx.lost('C11.R2', 'arms matching on fault-only node states')
+
+
 def r1_callers(ctx):
     F = ctx.facts
     target = ctx.body('C11.R1', 'AffFuncBase::is_feasible')
@@ -94,6 +160,9 @@ def run(ctx):
     prune.check_infeasible_provenance(ctx, 'C11.R1')
     prune.check_edge_feasible_table(ctx, 'C11.R1')
     r1_callers(ctx)
+    from . import c10
+    c10.r2_outcomes(ctx, 'C11.R1')  # a non-finite or mis-ordered 'Optimal' answer would be cached as a witness
     r2(ctx)
+    r2_fault_only_states(ctx)
     prune.check_removals(ctx, 'C11.R3')
     prune.check_witness_guards(ctx, 'C11.R3')
